@@ -154,13 +154,8 @@ def run(ctx):
         if f is None:
             raise AnalysisError('anchor vanished: %s.make_group_node_and_parsing_state_delta' % clsname)
         mk = [c for c in iter_own(f) if isinstance(c, ast.Call) and call_name(c) == 'make_node']
-        ok = False
-        if mk:
-            p, pe = kwarg(mk[0], 'pos'), kwarg(mk[0], 'pos_end')
-            pedef = [s for s in iter_own(f) if isinstance(s, ast.Assign) and pe is not None
-                     and unparse(s.targets[0]) == unparse(pe)]
-            ok = p is not None and unparse(p) == 'self.first_token.pos' and bool(pedef) and \
-                unparse(pedef[0].value) == 'token_reader.cur_pos()'
+        spans = _node_spans(f, mod.methods(clsname))
+        ok = bool(spans) and all(p_ == 'self.first_token.pos' and pe_ == 'token_reader.cur_pos()' for p_, pe_, _o in spans)
         ctx.decide('R01d', ok, mod, mk[0] if mk else f,
                    'pos=self.first_token.pos, pos_end=token_reader.cur_pos()',
                    '%s does not span from its opening token to the reader position after the '
@@ -187,16 +182,9 @@ def run(ctx):
     pf = cm.methods('_LatexCallableParserBase').get('parse')
     if pf is None:
         raise AnalysisError('anchor vanished: _LatexCallableParserBase.parse')
-    ps = [s for s in iter_own(pf) if isinstance(s, ast.Assign) and unparse(s.targets[0]) == 'pos_start']
-    pe = [s for s in iter_own(pf) if isinstance(s, ast.Assign) and unparse(s.targets[0]) == 'pos_end']
-    parses = [c for c in iter_own(pf) if isinstance(c, ast.Call) and call_name(c) in (
-        'parse_call_arguments', 'parse_call_body')]
     mk = [c for c in iter_own(pf) if isinstance(c, ast.Call) and call_name(c) == 'make_node']
-    ok = len(ps) == 1 and unparse(ps[0].value) == 'self.token_call.pos' and len(pe) == 1 and \
-        unparse(pe[0].value) == 'token_reader.cur_pos()' and parses and \
-        all(c.lineno < pe[0].lineno for c in parses) and mk and \
-        unparse(kwarg(mk[0], 'pos')) == 'pos_start' and unparse(kwarg(mk[0], 'pos_end')) == 'pos_end' \
-        and pe[0].lineno < mk[0].lineno
+    spans = _node_spans(pf, cm.methods('_LatexCallableParserBase'), order_calls=('parse_call_arguments', 'parse_call_body'))
+    ok = bool(spans) and all(p_ == 'self.token_call.pos' and pe_ == 'token_reader.cur_pos()' and o_ for p_, pe_, o_ in spans)
     ctx.decide('R01d', bool(ok), cm, mk[0] if mk else pf,
                'call node: pos = call token, pos_end = reader position after arguments and body',
                'the call node does not span from its token to the reader position after its '
@@ -1027,3 +1015,54 @@ def _fixed_width_token_span(ctx, mod, f, c, chars, pos, d):
                        '%d character(s) wide (%s) -- for those (a paragraph break read as one token) the node\'s text '
                        'is longer than the source slice at its position' % (k, '/'.join(sorted(kinds)), k, '; '.join(other[:2])))
     return True, 'every %s token is %d character(s) wide (%d construction sites)' % ('/'.join(sorted(kinds)), k, n_sites)
+
+
+def _node_spans(fn, methods, order_calls=()):
+    """[(pos text, pos_end text, ordered)] for every make_node() reached from `fn` -- directly, or in a helper method
+    called on self with the span as arguments -- with locals expanded to their definitions in `fn`; `ordered` says
+    that every call named in order_calls on that path came before the call that defines pos_end"""
+    def is_helper(c):
+        return is_self_attr(c.func) and c.func.attr in methods and methods[c.func.attr] is not fn and any(
+            isinstance(x, ast.Call) and call_name(x) == 'make_node' for x in ast.walk(methods[c.func.attr]))
+    watch = ('make_node', 'cur_pos') + tuple(order_calls)
+    try:
+        cases = symex.Walker(is_sink=lambda c: call_name(c) in watch or is_helper(c), trace=True).run(fn)
+    except symex.TooManyPaths:
+        return []
+    out = []
+    for cs in cases:
+        c = cs.sub
+        if call_name(c) == 'make_node':
+            p, pe = kwarg(c, 'pos'), kwarg(c, 'pos_end')
+        elif isinstance(cs.node, ast.Call) and is_helper(cs.node):
+            h = methods[cs.node.func.attr]
+            params = [a.arg for a in h.args.args][1:]
+            ren = dict(zip(params, c.args))
+            ren.update((k.arg, k.value) for k in c.keywords if k.arg)
+            try:
+                inner = symex.Walker(is_sink=lambda x: call_name(x) == 'make_node').run(h)
+            except symex.TooManyPaths:
+                inner = []
+            if not inner:
+                continue
+            p = kwarg(inner[0].sub, 'pos')
+            pe = kwarg(inner[0].sub, 'pos_end')
+            p = symex.subst(p, ren) if p is not None else None
+            pe = symex.subst(pe, ren) if pe is not None else None
+        else:
+            continue
+        if p is None or pe is None:
+            out.append(('?', '?', False))
+            continue
+        pe_sym = pe
+        ptxt = unparse(symex.expand(p, cs.env))
+        petxt = unparse(symex.expand(pe, cs.env))
+        # order: the call defining pos_end is the last cur_pos() in the trace and comes after the parse calls
+        tr = [call_name(sub) for _n, sub in cs.env.get('#trace', ())]
+        ordered = True
+        if order_calls:
+            last_parse = max([i for i, n_ in enumerate(tr) if n_ in order_calls] or [-1])
+            curs = [i for i, n_ in enumerate(tr) if n_ == 'cur_pos']
+            ordered = bool(curs) and curs[-1] > last_parse
+        out.append((ptxt, petxt, ordered))
+    return out
